@@ -201,7 +201,7 @@ def rule_bonus_table(ctx):
             ctx.violation("score::<impl config::Config>::bonus_for|cell|%s,%s" % (p, c), site(fn, 0),
                           "bonus_for(prev=%s, class=%s) yields %s; the scheme says %s (variant order used for `>`: %s)" % (p, c, leaf[1:], want, order))
     unspec = {k: v for k, v in table.items() if spec_cell(*k) is None}
-    ctx.note("cells not fixed by the property text (informational): %s" % sorted(set((k[1], v[1]) for k, v in unspec.items())))
+    ctx.note("cells not fixed by the property text (informational): %s" % sorted(set((k[1], str(v[1])) for k, v in unspec.items())))
 
 
 # ---------------------------------------------------------------- prev-class
@@ -341,8 +341,34 @@ class Bounds:
             return max(bs) if bs else CYC
         if k == "arg":
             ty = self.fn.b["locals"][e[1]]["ty"]
-            return {"u8": 255, "bool": 1}.get(ty)
+            b = {"u8": 255, "bool": 1}.get(ty)
+            if b is not None:
+                return b
+            return self.arg_bound(e[1], depth)
         return None
+
+    def arg_bound(self, argl, depth):
+        """Interprocedural: bound of a parameter of a crate-private function = max over all call sites."""
+        if depth > 6 or self.ctx is None:
+            return None
+        fn = self.fn
+        if fn.b.get("vis", "").startswith("Public") or fn.b["kind"] == "Closure":
+            return None
+        from common import calls_to, callee as _callee, fn_of
+        sites = calls_to(self.ctx.facts, fn.b["crate"], lambda t: _callee(t) == fn.path or t.get("fn") == fn.path)
+        if not sites:
+            return None
+        best = 0
+        for cf, cbi, ct in sites:
+            if argl - 1 >= len(ct["args"]):
+                return None
+            root = cf.b.get("root", cf.path)
+            sub = Bounds(self.ctx, cf, self.maxb, in_region=self.in_region, max_needle=self.max_needle)
+            b = sub.ub(cf.expr_of_operand(ct["args"][argl - 1]), frozenset(), depth + 1, cbi)
+            if b is None or b == CYC:
+                return None
+            best = max(best, b)
+        return best
 
 
 def slab_region(ctx):
@@ -476,18 +502,37 @@ def rule_same_constants(ctx):
         else:
             ctx.ok(site(fn, 0), "uses %s" % sorted(want))
     # gap penalties are applied with saturating_sub (running score floored at zero)
+    PEN = ("score::PENALTY_GAP_START", "score::PENALTY_GAP_EXTENSION")
+
+    def mentions_penalty(fn, e, depth=0):
+        for x in walk(e):
+            if x[0] == "const" and x[2] in PEN:
+                return True
+            if x[0] == "local" and depth < 2:
+                for _, _, d in fn.def_exprs(x[1]):
+                    if mentions_penalty(fn, d, depth + 1):
+                        return True
+        return False
     for name in ("score::<impl Matcher>::calculate_score", "fuzzy_optimal::p_score"):
         fn = get_fn(facts, M, name)
-        sat = [bi for bi, t in fn.calls(lambda t: "saturating_sub" in callee(t))]
-        pens = 0
-        for bi in sat:
-            e = fn.expr_of_operand(fn.blocks[bi]["term"]["args"][1])
-            if any(x[0] == "const" and x[2] in ("score::PENALTY_GAP_START", "score::PENALTY_GAP_EXTENSION") for x in walk(e)) or e[0] == "local":
-                pens += 1
-        if pens:
-            ctx.ok(site(fn, sat[0]), "gap penalty subtracted with saturating_sub (score floored at zero)")
-        else:
-            ctx.violation("%s|gap-floor|1" % name, site(fn, 0), "gap penalty is not applied with saturating_sub: the running score is not floored at zero")
+        good = bad = 0
+        for bi, t in fn.calls(lambda t: callee(t).endswith("_sub") and "num::" in callee(t)):
+            if len(t["args"]) < 2 or not mentions_penalty(fn, fn.expr_of_operand(t["args"][1])):
+                continue
+            if "saturating_sub" in callee(t):
+                good += 1
+                ctx.ok(site(fn, bi), "gap penalty subtracted with saturating_sub (score floored at zero)")
+            else:
+                bad += 1
+                ctx.violation("%s|gap-floor|%s" % (name, callee(t).rsplit("::", 1)[1]), site(fn, bi), "gap penalty subtracted with %s: the running score is not floored at zero" % callee(t).rsplit("::", 1)[1])
+        for bi in sorted(fn.live):
+            tt = fn.blocks[bi]["term"]
+            if tt["k"] == "assert" and tt.get("kind") == "Overflow" and tt["op"] == "Sub" and tt["ty"] == "u16":
+                if mentions_penalty(fn, fn.expr_of_operand(tt["b"])):
+                    bad += 1
+                    ctx.violation("%s|gap-floor|plain-sub" % name, site(fn, bi), "gap penalty subtracted with a plain `-`: underflows instead of flooring the running score at zero")
+        if good == 0 and bad == 0:
+            ctx.violation("%s|gap-floor|missing" % name, site(fn, 0), "no gap penalty is subtracted from the running score")
 
 
 def rules(ctx):
